@@ -84,7 +84,7 @@ fn leaf_statement(rng: &mut Rng, o: &GenOpts, has_fn: bool, has_data: bool) -> (
         15 if o.allow_stop => ("STOP".to_string(), "stop"),
         16 => ("REM note".to_string(), "rem"),
         17 if o.allow_failures => (
-            rng.pick(&["PRINT 1/0", "A = \"x\"", "PRINT P(11)", "NEXT Z", "RETURN", "READ Z9", "DIM P(5)", "PRINT Q(1,1)", "GOTO 12345", "PRINT -\"a\"", "X = RND(-1)", "PRINT (1", "DIM W(100,100)"]).to_string(),
+            rng.pick(&["PRINT 1/0", "A = \"x\"", "PRINT P(11)", "NEXT Z", "RETURN", "READ Z9", "DIM P(5)", "PRINT Q(1,1)", "GOTO 12345", "PRINT -\"a\"", "X = RND(-1)", "PRINT (1", "DIM W(100,100)", "P(1) = \"x\"", "N$(2) = 5", "C(1,1,1,1,1) = \"X\"", "V(1) = \"X\" : DIM V(20)", "PRINT U(1,1,1,1)", "U$(3) = 5 : U$(1,2) = \"HI\""]).to_string(),
             "failure",
         ),
         _ => (format!("{} = {} + 1", num_var(rng), num_var(rng)), "incr"),
